@@ -40,25 +40,25 @@ Section Ids.
   Hypothesis UD_u : forall a b r r', T r -> T r' -> fu a ++ r = fu b ++ r' -> a = b /\ r = r'.
 
   Inductive val :=
-  | VStr (s : list N) | VInt (z : Z) | VDouble (f : D) | VBool (b : bool) | VBytes (x : list N) | VEmpty
-  | VSlice (l : list val) | VMap (m : list (list N * val)).
+  | IStr (s : list N) | IInt (z : Z) | IDouble (f : D) | IBool (b : bool) | IBytes (x : list N) | IEmpty
+  | ISlice (l : list val) | IMap (m : list (list N * val)).
 
-  (* ValueID; AttributesId is the VMap case (ValueID calls it for maps) *)
+  (* ValueID; AttributesId is the IMap case (ValueID calls it for maps) *)
   Fixpoint ev (v : val) : list N :=
     match v with
-    | VStr s => 115 :: q s
-    | VInt z => 105 :: fi z
-    | VDouble f => 100 :: fd f
-    | VBool b => 98 :: fb b
-    | VBytes x => 120 :: fx x
-    | VEmpty => [101]
-    | VSlice l =>
+    | IStr s => 115 :: q s
+    | IInt z => 105 :: fi z
+    | IDouble f => 100 :: fd f
+    | IBool b => 98 :: fb b
+    | IBytes x => 120 :: fx x
+    | IEmpty => [101]
+    | ISlice l =>
         91 :: (fix items (l : list val) : list N :=
                  match l with
                  | [] => []
                  | v :: tl => ev v ++ match tl with [] => [] | _ => 44 :: items tl end
                  end) l ++ [93]
-    | VMap m =>
+    | IMap m =>
         123 :: (fix entries (m : list (list N * val)) : list N :=
                   match m with
                   | [] => []
@@ -77,22 +77,22 @@ Section Ids.
     | (k, v) :: tl => q k ++ 58 :: ev v ++ match tl with [] => [] | _ => 44 :: entries tl end
     end.
 
-  Lemma ev_slice l : ev (VSlice l) = 91 :: items l ++ [93].
+  Lemma ev_slice l : ev (ISlice l) = 91 :: items l ++ [93].
   Proof. reflexivity. Qed.
-  Lemma ev_map m : ev (VMap m) = 123 :: entries m ++ [125].
+  Lemma ev_map m : ev (IMap m) = 123 :: entries m ++ [125].
   Proof. reflexivity. Qed.
 
   (* nested induction principle *)
   Section ValInd.
     Variable P : val -> Prop.
-    Hypotheses (Hs : forall s, P (VStr s)) (Hi : forall z, P (VInt z)) (Hd : forall f, P (VDouble f)) (Hb : forall b, P (VBool b))
-               (Hx : forall x, P (VBytes x)) (He : P VEmpty)
-               (Hl : forall l, Forall P l -> P (VSlice l)) (Hm : forall m, Forall (fun kv => P (snd kv)) m -> P (VMap m)).
+    Hypotheses (Hs : forall s, P (IStr s)) (Hi : forall z, P (IInt z)) (Hd : forall f, P (IDouble f)) (Hb : forall b, P (IBool b))
+               (Hx : forall x, P (IBytes x)) (He : P IEmpty)
+               (Hl : forall l, Forall P l -> P (ISlice l)) (Hm : forall m, Forall (fun kv => P (snd kv)) m -> P (IMap m)).
     Fixpoint val_ind' (v : val) : P v :=
       match v with
-      | VStr s => Hs s | VInt z => Hi z | VDouble f => Hd f | VBool b => Hb b | VBytes x => Hx x | VEmpty => He
-      | VSlice l => Hl l ((fix go (l : list val) : Forall P l := match l with [] => Forall_nil _ | v :: tl => Forall_cons _ (val_ind' v) (go tl) end) l)
-      | VMap m => Hm m ((fix go (m : list (list N * val)) : Forall (fun kv => P (snd kv)) m :=
+      | IStr s => Hs s | IInt z => Hi z | IDouble f => Hd f | IBool b => Hb b | IBytes x => Hx x | IEmpty => He
+      | ISlice l => Hl l ((fix go (l : list val) : Forall P l := match l with [] => Forall_nil _ | v :: tl => Forall_cons _ (val_ind' v) (go tl) end) l)
+      | IMap m => Hm m ((fix go (m : list (list N * val)) : Forall (fun kv => P (snd kv)) m :=
                            match m with [] => Forall_nil _ | kv :: tl => Forall_cons _ (val_ind' (snd kv)) (go tl) end) m)
       end.
   End ValInd.
@@ -176,7 +176,7 @@ Section Ids.
 
   (* AttributesId(attrs) = ValueID of the map of the (stably sorted) entries; [canon] is that sorting *)
   Variable canon : list (list N * val) -> list (list N * val).
-  Definition attrs_id (m : list (list N * val)) : list N := ev (VMap (canon m)).
+  Definition attrs_id (m : list (list N * val)) : list N := ev (IMap (canon m)).
 
   Lemma attrs_id_UD m m' r r' : T r -> T r' -> attrs_id m ++ r = attrs_id m' ++ r' -> canon m = canon m' /\ r = r'.
   Proof.
@@ -220,6 +220,42 @@ Section Ids.
     apply cons_inv in H. repeat split; assumption.
   Qed.
 End Ids.
+Arguments IStr {D}. Arguments IInt {D}. Arguments IDouble {D}. Arguments IBool {D}. Arguments IBytes {D}. Arguments IEmpty {D}.
+Arguments ISlice {D}. Arguments IMap {D}.
+
+(* the assumptions about the atom renderers, bundled *)
+Definition atoms_ok (D : Type) (q : list N -> list N) (fi : Z -> list N) (fd : D -> list N) (fb : bool -> list N)
+                    (fx : list N -> list N) (fu : N -> list N) : Prop :=
+  (forall a b r r', q a ++ r = q b ++ r' -> a = b /\ r = r') /\
+  (forall a, exists t, q a = 34%N :: t) /\
+  (forall a b r r', T r -> T r' -> fi a ++ r = fi b ++ r' -> a = b /\ r = r') /\
+  (forall a b r r', T r -> T r' -> fd a ++ r = fd b ++ r' -> a = b /\ r = r') /\
+  (forall a b r r', T r -> T r' -> fb a ++ r = fb b ++ r' -> a = b /\ r = r') /\
+  (forall a b r r', T r -> T r' -> fx a ++ r = fx b ++ r' -> a = b /\ r = r') /\
+  (forall a b r r', T r -> T r' -> fu a ++ r = fu b ++ r' -> a = b /\ r = r').
+
+Theorem ids_injective D q fi fd fb fx fu canon :
+  atoms_ok D q fi fd fb fx fu ->
+  (forall a d u a' d' u', resource_id D q fi fd fb fx fu canon a d u = resource_id D q fi fd fb fx fu canon a' d' u' ->
+     canon a = canon a' /\ d = d' /\ u = u') /\
+  (forall n v a d u n' v' a' d' u', scope_id D q fi fd fb fx fu canon n v a d u = scope_id D q fi fd fb fx fu canon n' v' a' d' u' ->
+     n = n' /\ v = v' /\ canon a = canon a' /\ d = d' /\ u = u') /\
+  (forall v v' r r', T r -> T r' -> ev D q fi fd fb fx v ++ r = ev D q fi fd fb fx v' ++ r' -> v = v' /\ r = r').
+Proof.
+  intros (H1 & H2 & H3 & H4 & H5 & H6 & H7). split; [|split].
+  - intros a d u a' d' u'. apply resource_id_injective; assumption.
+  - intros n v a d u n' v' a' d' u'. apply scope_id_injective; assumption.
+  - intros v. eapply (value_id_UD D q fi fd fb fx fu); eassumption.
+Qed.
+
+(* what an identifier looks like (toy renderers: quote = "..." around the raw bytes, numbers as one digit) *)
+Example resource_id_example :
+  let q := fun s : list N => 34 :: s ++ [34] in
+  let dig := fun n : N => [48 + n] in
+  resource_id N q (fun z => dig (Z.to_N z)) dig (fun b : bool => if b then [116] else [102]) (fun x => x) dig (fun m => m)
+    [([107], IStr [118]); ([110], ISlice [IInt 1%Z; IEmpty])] 0 [117]
+  = [123; 34;107;34; 58; 115;34;118;34; 44; 34;110;34; 58; 91; 105;49; 44; 101; 93; 125; 124; 48; 124; 117].
+Proof. vm_compute. reflexivity. Qed.
 
 (* The identifiers before the fix (no tags, no quoting; values rendered raw) were not injective: the
    string "1" and the integer 1 give the same ValueID, and an attribute value containing the delimiters
